@@ -29,6 +29,7 @@ type decSpec struct {
 	binds  map[string]string // Go expression text -> Lean expression
 	drop   []string          // statements whose source text starts with one of these are dropped
 	errRet bool              // the Go function returns `error`: nil -> true, anything else -> false
+	finalVar string          // the function's effect is this local variable's final value (e.g. the cookie handed to http.SetCookie)
 	cond   string            // instead of the body: translate the condition of the first if-statement whose source contains this text
 }
 
@@ -60,6 +61,11 @@ var decSpecs = []decSpec{
 	{file: "pkg/handler/error.go", fn: "incrementRetryAttempt", lean: "nextRetryValue", params: "(prev : Int) (ok : Bool)", ret: "Int",
 		binds: map[string]string{},
 		drop:  []string{"prev, ok := getRetryAttempts(r)", "c := cookie.Make", "cookie.Set"}},
+	{file: "pkg/cookie/cookie.go", fn: "Make", lean: "cookieMake", params: "(name value oDomain oPath oSameSite : String) (oSecure : Bool)", ret: "GenCookie",
+		binds: map[string]string{"opts.Domain": "oDomain", "opts.Path": "oPath", "opts.SameSite": "oSameSite", "opts.Secure": "oSecure", "&Cookie{cookie}": "cookie"}},
+	{file: "pkg/cookie/cookie.go", fn: "Clear", lean: "cookieClear", params: "(name oDomain oPath oSameSite : String) (oSecure : Bool)", ret: "GenCookie", finalVar: "cookie",
+		binds: map[string]string{"opts.Domain": "oDomain", "opts.Path": "oPath", "opts.SameSite": "oSameSite", "opts.Secure": "oSecure", "time.Unix(0, 0)": "\"epoch\""},
+		drop:  []string{"http.SetCookie(w, cookie)"}},
 	{file: "pkg/session/session.go", fn: "Session.canRefresh", lean: "sessionCanRefresh", params: "(hasData hasRefreshToken onCooldown : Bool)", ret: "Bool",
 		binds: map[string]string{"in.data != nil": "hasData", "in.data.HasRefreshToken()": "hasRefreshToken", "in.data.Metadata.IsRefreshOnCooldown()": "onCooldown"}},
 	{file: "pkg/session/session.go", fn: "Session.shouldRefresh", lean: "sessionShouldRefresh", params: "(hasData shouldRefresh : Bool)", ret: "Bool",
@@ -116,6 +122,26 @@ func (d *dtr) expr(e ast.Expr) string {
 	case *ast.UnaryExpr:
 		if x.Op == token.NOT {
 			return "(!" + d.expr(x.X) + ")"
+		}
+		if x.Op == token.SUB {
+			return "(-" + d.expr(x.X) + ")"
+		}
+		if x.Op == token.AND {
+			if cl, ok := x.X.(*ast.CompositeLit); ok && src(d.fset, cl.Type) == "http.Cookie" {
+				var fs []string
+				for _, el := range cl.Elts {
+					kv, ok := el.(*ast.KeyValueExpr)
+					if !ok {
+						return d.fail(el, "positional field in http.Cookie literal")
+					}
+					fn, ok := cookieFields[src(d.fset, kv.Key)]
+					if !ok {
+						return d.fail(el, "http.Cookie field %s is not modelled", src(d.fset, kv.Key))
+					}
+					fs = append(fs, fn+" := "+d.expr(kv.Value))
+				}
+				return "({ " + strings.Join(fs, ", ") + " } : GenCookie)"
+			}
 		}
 	case *ast.BinaryExpr:
 		// len(s) == 0 / len(s) > 0 on strings
@@ -174,6 +200,9 @@ func (d *dtr) expr(e ast.Expr) string {
 	}
 	return d.fail(e, "expression %q outside the subset", src(d.fset, e))
 }
+
+var cookieFields = map[string]string{"HttpOnly": "httpOnly", "Name": "name", "Path": "path", "SameSite": "sameSite", "Secure": "secure", "Value": "value",
+	"Expires": "expires", "MaxAge": "maxAge", "Domain": "domain"}
 
 var leanKeywords = map[string]bool{"match": true, "end": true, "then": true, "fun": true, "let": true, "do": true, "at": true, "from": true, "show": true, "have": true,
 	"with": true, "open": true, "in": true, "if": true, "else": true, "where": true, "instance": true, "structure": true, "def": true, "theorem": true}
@@ -339,6 +368,19 @@ func (d *dtr) block(stmts []ast.Stmt, ind string) string {
 		}
 		// a branch that only re-assigns variables: x = e  becomes  let x := if c then e else x
 		if s.Else == nil {
+			// cookie.Domain = opts.Domain   becomes   let cookie := if c then { cookie with domain := oDomain } else cookie
+			if len(s.Body.List) == 1 {
+				if as, ok := s.Body.List[0].(*ast.AssignStmt); ok && as.Tok == token.ASSIGN && len(as.Lhs) == 1 && len(as.Rhs) == 1 {
+					if sel, ok := as.Lhs[0].(*ast.SelectorExpr); ok {
+						if id, ok := sel.X.(*ast.Ident); ok {
+							if fn, ok := cookieFields[sel.Sel.Name]; ok {
+								v := leanIdent(id.Name)
+								return pre + fmt.Sprintf("let %s := if %s then { %s with %s := %s } else %s\n%s", v, c, v, fn, d.expr(as.Rhs[0]), v, ind) + d.block(rest, ind)
+							}
+						}
+					}
+				}
+			}
 			vars := assignedIn(s.Body.List)
 			if len(vars) == len(s.Body.List) && len(vars) > 0 {
 				out := pre
@@ -531,6 +573,8 @@ func genDec() {
 		}
 	}
 	b.WriteString("end Ww.Gen.Consts\n\nnamespace Ww.Gen.Dec\n\n")
+	b.WriteString("/-- the fields of net/http.Cookie that pkg/cookie sets (zero values as in Go) -/\nstructure GenCookie where\n  name : String := \"\"\n  value : String := \"\"\n  domain : String := \"\"\n  path : String := \"\"\n" +
+		"  sameSite : String := \"\"\n  secure : Bool := false\n  httpOnly : Bool := false\n  maxAge : Int := 0\n  expires : String := \"\"\n  deriving Repr, DecidableEq\n\n")
 	b.WriteString("/-- strings.TrimSuffix -/\ndef trimSuffix (s suf : String) : String := if s.endsWith suf then (s.dropEnd suf.length).toString else s\n\n")
 	for i := range decSpecs {
 		sp := &decSpecs[i]
@@ -561,6 +605,9 @@ func genDec() {
 		} else {
 			if sp.lean == "nextRetryValue" {
 				d.final = "val"
+			}
+			if sp.finalVar != "" {
+				d.final = sp.finalVar
 			}
 			body = d.block(fd.Body.List, "  ")
 		}
